@@ -508,8 +508,9 @@ def main():
         rep.merge(r)
     fz = vbuild.build('fuzz')
     per = 3
-    runs = 15000 if not th else 1500000
-    for r in parallel(fuzz_worker, [(fz, t, i, runs) for t in FUZZ_TARGETS for i in range(per)]):
+    runs = {t: (40000 if not th else 6000000) for t in FUZZ_TARGETS}
+    runs['spend'] = 10000 if not th else 800000          # (real signature verification: an order of magnitude slower)
+    for r in parallel(fuzz_worker, [(fz, t, i, runs[t]) for t in FUZZ_TARGETS for i in range(per)]):
         rep.merge(r)
     return rep.finish(
         rule='one process per case, ASan+UBSan builds of btcc / btcdeb / tap: hostile argument lists (empty strings, 1..70,000-character tokens, bracket and inline-function nesting, every transform on adversarial arguments, control characters), '
